@@ -6,6 +6,7 @@ import VlsModel.Gen.FnKvvKeys
 import VlsModel.Gen.FnKvvPass
 import VlsModel.Gen.FnNodePrune
 import VlsModel.Gen.FnNodeForget
+import VlsModel.Gen.FnTrackerEntry
 import VlsModel.Model.Backup
 import VlsModel.Lemmas.FnGen
 /-
@@ -759,4 +760,33 @@ example :
   intro node; exact ⟨rfl, rfl, rfl⟩
 
 end Forget
+/-! ### `From<&ChainTracker<ChainMonitor>> for ChainTrackerEntry` translated (`Gen.FnTrackerEntry`, `fn_targets/TrackerEntry.b5.json`) -/
+section TrackerEntry
+
+/-- **C11_fn_tracker_entry_from**: the entry `update_tracker` serialises holds the tracker's own tip, every remembered header in
+    order (each through the one consensus encoding), its height (`height()`) and its network; and under the format contract
+    (decoding after encoding is the identity) the tip and the headers a restart decodes are the running tracker's.  The
+    listeners' conversion (an iteration over the listener map) stays with the field census `C11_gen_census_tracker`. -/
+theorem C11_fn_tracker_entry_from {Headers Network OutPoint ChainMonitorState : Type}
+    (ser : Headers → List Nat) (ls : Gen.FnTrackerEntry.ChainTracker Headers Network → List (OutPoint × (ChainMonitorState × Gen.FnTrackerEntry.ListenSlot)))
+    (height : Gen.FnTrackerEntry.ChainTracker Headers Network → Nat) (t : Gen.FnTrackerEntry.ChainTracker Headers Network) :
+    let e : Gen.FnTrackerEntry.ChainTrackerEntry Network OutPoint ChainMonitorState := Gen.FnTrackerEntry.ChainTrackerEntry.«from» ser ls height t
+    e.tip = ser t.tip ∧ e.headers = t.headers.map ser ∧ e.height = height t ∧ e.network = t.network ∧ e.listeners = ls t ∧
+    (∀ de : List Nat → Headers, (∀ h, de (ser h) = h) → de e.tip = t.tip ∧ e.headers.map de = t.headers) := by
+  refine ⟨rfl, rfl, rfl, rfl, rfl, ?_⟩
+  intro de hde
+  refine ⟨hde _, ?_⟩
+  show (t.headers.map ser).map de = t.headers
+  rw [List.map_map]
+  conv => rhs; rw [← List.map_id t.headers]
+  exact List.map_congr_left (fun h _ => hde h)
+
+/-- non-vacuity: an encoding with a decoder (`[n]` / head), two remembered headers -/
+example :
+    let t : Gen.FnTrackerEntry.ChainTracker Nat Nat := { headers := [4, 5], tip := 6, network := 1 }
+    let e : Gen.FnTrackerEntry.ChainTrackerEntry Nat Nat Nat := Gen.FnTrackerEntry.ChainTrackerEntry.«from» (fun n => [n]) (fun _ => []) (fun _ => 7) t
+    e.tip = [6] ∧ e.headers = [[4], [5]] ∧ e.height = 7 ∧ e.headers.map (fun l => l.headD 0) = t.headers := by
+  intro t e; exact ⟨rfl, rfl, rfl, rfl⟩
+
+end TrackerEntry
 end VlsModel.Props.C11Fn
